@@ -855,7 +855,7 @@ V('c19-finally-drift', 'C19', 'C19.R10',
 
 # ---- round e ---------------------------------------------------------------------
 V('c02-unknown-encoding', 'C02', 'C02.R1',
-  ('pywbem/_tupletree.py', "    except LookupError as exc:\n", "    except MemoryError as exc:\n"), 'LookupError')
+  ('pywbem/_tupletree.py', "    except (LookupError, ValueError) as exc:\n", "    except ValueError as exc:\n"), 'LookupError')
 V('c02-embedded-nonstring', 'C02', 'C02.R1',
   (TPF, "        if not isinstance(val, str):\n            # The element has a non-string CIM type\n", "        if False:\n            # The element has a non-string CIM type\n"), 'TypeError')
 V('c02-exponential-regex', 'C02', 'C02.R9',
@@ -1086,3 +1086,59 @@ V('c04-real-suffix-after-exponent', 'C04', 'C04.R15',
   ('pywbem/_cim_types.py', "            parts = s.split('E')\n            parts[0] = parts[0] + '.0'\n            s = 'E'.join(parts)\n        return s\n    elif isinstance(obj, (Real64, float)):",
    "            s = s + '.0'\n        return s\n    elif isinstance(obj, (Real64, float)):"),
   'not-readable')
+
+# ---- round k rules ----------------------------------------------------------
+V('c18-exit-skips-on-error', 'C18', 'C18.R13',
+  ('pywbem/_subscription_manager.py', '        self.remove_all_servers()\n        return False  # re-raise any exceptions\n', '        if exc_type is None:\n            self.remove_all_servers()\n        return False  # re-raise any exceptions\n'),
+  'cleanup-skipped')
+V('c07-string-key-folded', 'C07', 'C07.R13',
+  ('pywbem/_cim_obj.py', '                # string, char16\n                ret.append(\'"\')\n                ret.append(value.\n', '                # string, char16\n                ret.append(\'"\')\n                ret.append(case(value).\n', 1, 0),
+  'value-folded')
+V('c17-qualifier-name-falsy', 'C17', 'C17.R13',
+  ('pywbem/_cim_obj.py', '        if name is None:\n            raise ValueError("CIMQualifier \'name\' parameter must not be None")', '        if not name:\n            raise ValueError("CIMQualifier \'name\' parameter must not be None")'),
+  'falsy-rejected')
+V('c10-already-exists-extra', 'C10', 'C10.R19',
+  ('pywbem_mock/_instancewriteprovider.py', '            if instance_store.object_exists(path):\n                raise CIMError(\n                    CIM_ERR_ALREADY_EXISTS,', '            if instance_store.object_exists(path) or \\\n                    ns != orig_ns and instance_store.len():\n                raise CIMError(\n                    CIM_ERR_ALREADY_EXISTS,'),
+  'not-store-membership')
+V('c13-modify-keyed-by-request-path', 'C13', 'C13.R14',
+  ('pywbem_mock/_instancewriteprovider.py', '        instance_store.update(original_instance.path, original_instance)', '        instance_store.update(ModifiedInstance.path, original_instance)'),
+  'key')
+V('c20-tobinary-checks-qualifier', 'C20', 'C20.R11',
+  ('pywbem/_valuemapping.py', '        try:\n            return self._v2b_dict[values_str]\n        except KeyError:', "        try:\n            if values_str not in self._element_obj.qualifiers['Values'].value:\n                raise KeyError(values_str)\n            return self._v2b_dict[values_str]\n        except KeyError:"),
+  'raw-qualifier-read')
+V('c04-methodcall-empty-namespace', 'C04', 'C04.R16',
+  ('pywbem/_cim_operations.py', '            if localobject.namespace is None:\n                localobject.namespace = self.default_namespace\n            localobject.host = None\n', '            if not localobject.namespace:\n                localobject.namespace = self.default_namespace\n            localobject.host = None\n'),
+  'default-for-given-namespace')
+V('c11-add-namespace-finally', 'C11', 'C11.R1',
+  ('pywbem_mock/_wbemconnection_mock.py', '        self._mainprovider.add_namespace(namespace, verbose=verbose)\n\n    def remove_namespace', '        try:\n            self._mainprovider.add_namespace(namespace, verbose=verbose)\n        finally:\n            if namespace not in self.cimrepository.namespaces:\n                self.cimrepository.add_namespace(namespace)\n\n    def remove_namespace'),
+  '')
+V('c01-embedded-object-result-dropped', 'C01', 'C01.R18',
+  ('pywbem/_tupleparse.py', '        if embedded_object:\n            val = self.parse_embeddedObject(val)\n\n        try:\n            return CIMProperty(\n                pname, val, type=ptype, is_array=False,', '        if embedded_object:\n            obj = self.parse_embeddedObject(val)\n\n        try:\n            return CIMProperty(\n                pname, val, type=ptype, is_array=False,'),
+  'result-dropped')
+V('c12-decl-default-flavor-dropped', 'C12', 'C12.R15',
+  ('pywbem/_mof_compiler.py', '    if len(p) == 5:\n        flist = []\n    else:\n        flist = p[5]\n\n    flavors = _build_flavors(p, flist, None, qualname)', '    flist = []\n\n    flavors = _build_flavors(p, flist, None, qualname)'),
+  'defaultFlavor')
+V('c09-qualified-instance-alias-dropped', 'C09', 'C09.R14',
+  ('pywbem/_mof_compiler.py', '            props = p[7]\n            alias = p[5]\n', '            props = p[7]\n'),
+  'alias')
+V('c08-inherited-properties-by-keys', 'C08', 'C08.R14',
+  ('pywbem/_mof_compiler.py', '                for prop in super_.properties.values():\n                    if prop.name not in cc.properties:\n                        cc.properties[prop.name] = prop\n', '                for pname in super_.properties.keys():\n                    if pname not in cc.properties.keys():\n                        cc.properties[pname] = super_.properties[pname]\n'),
+  'case')
+V('c02-methodcall-returnvalue-attr', 'C02', 'C02.R17',
+  ('pywbem/_cim_operations.py', "            returnvalue = rsp_cimvalue(\n                'RETURNVALUE', tup_tree[0][2],\n", "            returnvalue = rsp_cimvalue(\n                'RETURNVALUE', tup_tree[0][2].strip(),\n"),
+  'attribute')
+V('c19-str-request-data-decode', 'C19', 'C19.R16',
+  ('pywbem/_exceptions.py', '        ret_str = f"{error_str}\\nCIM-XML response: {self.response_data}"\n', '        ret_str = f"{error_str}\\nCIM-XML response: " + self.response_data\n'),
+  'type-specific-use')
+V('c02-parse-cim-handler-reraises', 'C02', 'C02.R16',
+  ('pywbem/_tupleparse.py', '        except RecursionError:\n            # The parse methods recurse', '        except RecursionError:\n            raise\n            # The parse methods recurse'),
+  'recursion-depth')
+V('c17-parse-cim-no-handler', 'C17', 'C17.R14',
+  ('pywbem/_tupleparse.py', '        except RecursionError:\n', '        except MemoryError:\n'),
+  'recursion-depth')
+V('c02-multibyte-not-caught', 'C02', 'C02.R1',
+  ('pywbem/_tupletree.py', '    except (LookupError, ValueError) as exc:\n', '    except LookupError as exc:\n'),
+  'ValueError')
+V('c02-redirect-valueerror-not-caught', 'C02', 'C02.R1',
+  ('pywbem/_cim_http.py', '    except ValueError as exc:\n        # requests follows HTTP redirects', '    except UnicodeError as exc:\n        # requests follows HTTP redirects'),
+  'ValueError')
